@@ -37,6 +37,24 @@ def t_layout(toks, rng):
     return out
 
 
+def t_oneline(toks, rng):
+    """the whole program on ONE line (line comments dropped, every run of blanks a single space), or - the other extreme -
+    one token per line outside declarations: what a name means may not depend on which reads share a line"""
+    one = rng.random() < 0.7
+    out = []
+    in_var = False
+    for t in toks:
+        if t.startswith('//'):
+            continue
+        if t.strip() == '':
+            out.append(' ' if one or in_var else '\n')
+            continue
+        if t == VAR: in_var = True
+        out.append(t)
+        if t == ';': in_var = False
+    return out
+
+
 def t_digits(toks, rng):
     out = []
     for t in toks:
@@ -161,20 +179,21 @@ def run(env, tier, seed, broken=None):
     cases = corpus_cases('C18')
     pairs = []
     n = 0
-    fams = ['layout', 'digits', 'synonyms', 'rename', 'parens', 'dead', 'combo']
+    fams = ['layout', 'oneline', 'digits', 'synonyms', 'rename', 'parens', 'dead', 'combo']
     for bi, (src, stdin) in enumerate(base):
         cid0 = 'o%d' % bi
         cases.append({'id': cid0, 'src': src, 'stdin': stdin})
         for fam in (fams if bi % 3 == 0 or tier == 'thorough' else [rng.choice(fams)]):
             toks = tokenize(src)
             names = {}
-            todo = [fam] if fam != 'combo' else rng.sample(fams[:6], rng.randint(2, 5))
-            order = ['dead', 'rename', 'parens', 'digits', 'synonyms', 'layout']
+            todo = [fam] if fam != 'combo' else rng.sample(fams[:7], rng.randint(2, 5))
+            order = ['dead', 'rename', 'parens', 'digits', 'synonyms', 'layout', 'oneline']
             todo = sorted(todo, key=order.index)
             s2 = src
             for f in todo:
                 toks = tokenize(s2)
                 if f == 'layout': s2 = ''.join(t_layout(toks, rng))
+                elif f == 'oneline': s2 = ''.join(t_oneline(toks, rng))
                 elif f == 'digits': s2 = ''.join(t_digits(toks, rng))
                 elif f == 'synonyms': s2 = ''.join(t_synonyms(toks, rng))
                 elif f == 'rename':
@@ -194,6 +213,20 @@ def run(env, tier, seed, broken=None):
         n += 1
         cases += [c1, c2]
         pairs.append((c1['id'], c2['id'], {}, 'parens-explicit'))
+    # explicit pairs for the layout family: scope histories (declare / assign / read over two colliding names, blocks, for
+    # headers, functions - the generator of C03) in which a name is read, declared and read again, written one statement
+    # per line and all on one line
+    from props import C03 as _c03
+    import random as _random
+    for h in _c03.histories(5, _random.Random(seed * 7919 + 18), 0.2):
+        evs = [e for e in h if e[0] in 'RD' or e.startswith('for')]
+        if sum(1 for e in evs if e[0] == 'R') >= 2 and any(e[0] != 'R' for e in evs[1:-1]):
+            src = _c03.render(h)
+            c1 = {'id': 'lo%d' % n, 'src': src}
+            c2 = {'id': 'lt%d' % n, 'src': ' '.join(src.split('\n')) + '\n', 'family': 'layout-explicit'}
+            n += 1
+            cases += [c1, c2]
+            pairs.append((c1['id'], c2['id'], {}, 'layout-explicit'))
     mism, ri, rm = diff_runs(env, cases)
     byid = {c['id']: c for c in cases}
     nontriv = set()
@@ -209,5 +242,5 @@ def run(env, tier, seed, broken=None):
             mism.append({'case': byid[b], 'reason': 'transformation %s changed the behaviour: original status %s %r %s | transformed status %s %r %s' % (fam, ra['status'], oa[-60:], ka, rb['status'], ob[-60:], kb),
                          'original': byid[a]['src']})
     return {'evaluations': len(cases), 'distinct_nontrivial': len(nontriv), 'mismatches': mism,
-            'rule': '%d generated programs (15%% with a planted fault) and the shipped examples x {blank/tab/comment/newline insertion (none inside a declaration), digit-script swaps, && / এবং and || / বা exchange, consistent renaming of user identifiers to Latin or Bangla names, redundant parentheses around operands, never-executed code} singly and in random combination; original vs transformed run of the implementation modulo line numbers and renamed function names; non-trivial = distinct (family, output head)' % (len(base) - 8),
+            'rule': '%d generated programs (15%% with a planted fault) and the shipped examples x {blank/tab/comment/newline insertion (none inside a declaration), the whole program on one line / one token per line, digit-script swaps, && / এবং and || / বা exchange, consistent renaming of user identifiers to Latin or Bangla names, redundant parentheses around operands, never-executed code} singly and in random combination; original vs transformed run of the implementation modulo line numbers and renamed function names; non-trivial = distinct (family, output head)' % (len(base) - 8),
             'samples': [cases[len(corpus_cases('C18')) + 1]['src'][:200]]}
